@@ -219,6 +219,14 @@ FamPairs(X) ==
                   Patch1("rcvh=T+1", "rcvh", << HT(A(AddI(X.pol.max_inflight, 1)), c) >>)} IN
        {Compose(p, q) : p \in PA, q \in PB}
 
+\* thorough: every edge of the fee and of the main outputs against every edge of the HTLC fields
+\* (the fee depends on the HTLC count through the weight, the trim threshold on the claimed fee rate)
+FamCross(X) ==
+  IF X.n = 0 \/ ~Thorough THEN {}
+  ELSE LET PA == {PFee(fs) : fs \in FeeSpecs(X)} \cup FamDustMain(X)
+           PB == FamDustHtlc(X) \cup FamCount(X) \cup FamCltv(X) \cup FamInflight(X) IN
+       {Compose(p, q) : p \in PA, q \in PB}
+
 \* fees whose rate estimate leaves 32 / 64 bits
 FamExtreme(X) ==
   {Compose(Shape(X, s[1], s[2], 20000), PFee(fs))
@@ -295,7 +303,9 @@ StdCases ==
           \cup CasesOf(X, "dusthtlc", FamDustHtlc(X)) \cup CasesOf(X, "feerate", FamFeerate(X))
           \cup CasesOf(X, "count", FamCount(X)) \cup CasesOf(X, "inflight", FamInflight(X))
           \cup CasesOf(X, "overflow", FamOverflow(X)) \cup CasesOf(X, "cltv", FamCltv(X))
-          \cup CasesOf(X, "initial", FamInitial(X)) \cup CasesOf(X, "pairs", FamPairs(X)) : X \in StdCtx }
+          \cup CasesOf(X, "initial", FamInitial(X)) \cup CasesOf(X, "pairs", FamPairs(X))
+          \cup (IF X.pol \in {BasePol, PolOnUse, PolTight} /\ X.outbound THEN CasesOf(X, "cross", FamCross(X)) ELSE {})
+          : X \in StdCtx }
 
 \* the initial commitment: who funds, how much is pushed
 InitCtx == {Ctx(BasePol, ct, ob, push, V0, ChainOK, side, 0)
@@ -344,12 +354,14 @@ FiltersAround(tags) ==
 CaseBroken(c) == IF c.kind = "setup" THEN ViolatedSetup(c.pol, c.setup)
                  ELSE ViolatedCommit(c.pol, c.setup, c.chain, c.side, c.n, c.req)
 ClassOf(c) == <<CaseBroken(c), c.side, c.n>>
-RepPool == {c \in Cases0 : c.pol.filter = Strict /\ c.setup.ctype = "static" /\ c.setup.outbound
-                           /\ c.pol \in {BasePol, PolOn, PolUse, PolOnUse} /\ CaseBroken(c) # {}}
-Reps == LET classes == {ClassOf(c) : c \in RepPool} IN
-        {CHOOSE c \in RepPool : ClassOf(c) = k : k \in classes}
-FilterCases == UNION { {[c EXCEPT !.fam = "filter", !.pol.filter = f] : f \in FiltersAround({Tag(r) : r \in CaseBroken(c)})}
-                       : c \in Reps }
+\* <<case, the rules it breaks>> for the candidates, computed once
+RepPool == TLCEval({<<c, CaseBroken(c)>> : c \in {d \in Cases0 : d.pol.filter = Strict /\ d.setup.ctype = "static"
+                                  /\ d.setup.outbound /\ d.pol \in {BasePol, PolOn, PolUse, PolOnUse}}})
+Reps == LET pool    == {p \in RepPool : p[2] # {}}
+            classes == {<<p[2], p[1].side, p[1].n>> : p \in pool} IN
+        {CHOOSE p \in pool : <<p[2], p[1].side, p[1].n>> = k : k \in classes}
+FilterCases == UNION { {[p[1] EXCEPT !.fam = "filter", !.pol.filter = f] : f \in FiltersAround({Tag(r) : r \in p[2]})}
+                       : p \in Reps }
 
 (***************************************************************************)
 (* setup_channel: commitment type and contest delays                        *)
